@@ -31,7 +31,10 @@ CONSTANTS Peers,        \* set of peer names (strings)
           PerPeerRPM,   \* per-peer limit per window
           DialDataRPM,  \* limit of dial-data requests per window
           MaxConc,      \* MaxConcurrentRequestsPerPeer
-          W             \* window length in ticks (60 s)
+          W,            \* window length in ticks (60 s)
+          DoubleRelease \* FALSE = the code's discipline: CompleteRequest once per granted request.
+                        \* TRUE  = mutation variant (an exit path releases the slot a second time): the
+                        \*         driver requires TLC to find ConcurrentCap violated with it.
 
 VARIABLES reqs,      \* Seq([p : Peers, a : 0..W])   r.reqs, oldest first; a = age in ticks, capped at W
           peerReqs,  \* [Peers -> Seq(0..W)]         r.peerReqs (absent key == empty sequence)
@@ -115,6 +118,14 @@ Complete(p) ==
   /\ UNCHANGED <<reqs, peerReqs, ddReqs, gAcc, gDD>>
   /\ op' = [name |-> "complete", p |-> p]
 
+(* A second CompleteRequest(p) for a request that was already completed (one exit path of the handler *)
+(* releasing explicitly while the deferred release still runs).  Only in the mutation variant.        *)
+SpuriousComplete(p) ==
+  /\ DoubleRelease /\ inProg[p] > 0
+  /\ inProg' = [inProg EXCEPT ![p] = @ - 1]
+  /\ UNCHANGED <<reqs, peerReqs, ddReqs, gAcc, gDD, gServing>>
+  /\ op' = [name |-> "complete2", p |-> p]
+
 Older(a) == IF a >= W THEN W ELSE a + 1
 ShiftG(f) == [a \in Ages |-> IF a = 0 THEN 0 ELSE f[a - 1]]   \* what was at age W is forgotten
 Tick ==
@@ -129,6 +140,7 @@ Tick ==
 Next == \/ \E p \in Peers : Accept(p)
         \/ AcceptDD
         \/ \E p \in Peers : Complete(p)
+        \/ \E p \in Peers : SpuriousComplete(p)
         \/ Tick
 
 Spec == Init /\ [][Next]_vars
